@@ -299,7 +299,19 @@ func (c *DnsController) RestoreReloadCache(entries map[string]*DnsCache, matchDo
 		}
 		c.dnsCache.Store(k, v)
 		c.rememberDnsKnowledge(dnsCacheBaseKey(k), v.OriginalDeadline)
-		c.triggerBpfUpdateIfNeeded(v, now)
+		// Publish the restored entry to the domain-routing map right away, exactly like a freshly
+		// stored answer (__updateDnsCacheDeadline). The async refresh queue is bounded and drops
+		// what does not fit: going through it left every restored entry beyond its capacity out
+		// of the kernel map until the name happened to be looked up again.
+		if rt := c.runtime(); rt != nil && rt.cacheAccessCallback != nil {
+			if err := rt.cacheAccessCallback(v); err != nil {
+				if c.log != nil {
+					c.log.WithError(err).Warn("failed to restore domain routing of a reloaded DNS cache entry")
+				}
+			} else {
+				v.MarkBpfUpdated(now)
+			}
+		}
 		count++
 	}
 	return count
